@@ -141,6 +141,7 @@ type c10Obs struct {
 	MetaGet  [][]string `json:"meta_get"` // the same through the per-key accessor GetMetadata
 	Same     bool       `json:"repeatable"`
 	Incr     bool       `json:"incremental"`
+	Access   string     `json:"accessors,omitempty"` // "" when the snapshot's accessor functions answer what its lists say
 }
 type c10Com struct {
 	Target string   `json:"target"`
@@ -341,7 +342,73 @@ func (c10Driver) Run(raw json.RawMessage) Case {
 		}
 		return o
 	}
-	s1 := render(b.Compile())
+	// the accessor functions of a snapshot (used by filters, the termui and the API) must answer what its lists say
+	accessors := func(s *bug.Snapshot) string {
+		for _, a := range c10Authors {
+			inA, inP := false, false
+			for _, x := range s.Actors {
+				inA = inA || x.Id() == a.Id()
+			}
+			for _, x := range s.Participants {
+				inP = inP || x.Id() == a.Id()
+			}
+			if s.HasActor(a.Id()) != inA || s.HasAnyActor(entity.Id("none"), a.Id()) != inA {
+				return "HasActor/HasAnyActor disagree with Actors"
+			}
+			if s.HasParticipant(a.Id()) != inP || s.HasAnyParticipant(entity.Id("none"), a.Id()) != inP {
+				return "HasParticipant/HasAnyParticipant disagree with Participants"
+			}
+		}
+		if s.HasActor(entity.Id("none")) || s.HasParticipant(entity.Id("none")) || s.HasAnyActor() || s.HasAnyParticipant() {
+			return "an unknown id is reported as actor or participant"
+		}
+		for i, it := range s.Timeline {
+			got, err := s.SearchTimelineItem(it.CombinedId())
+			if err != nil || got.CombinedId() != it.CombinedId() {
+				return "SearchTimelineItem does not find an item of the timeline"
+			}
+			first := i
+			for j := 0; j < i; j++ {
+				if s.Timeline[j].CombinedId() == it.CombinedId() {
+					first = j
+					break
+				}
+			}
+			if got != s.Timeline[first] {
+				return "SearchTimelineItem returns another item than the first one with that id"
+			}
+			switch v := it.(type) {
+			case *bug.CreateTimelineItem:
+				if v.Edited() != (len(v.History) > 1) || v.MessageIsEmpty() != (strings.TrimSpace(v.Message) == "") {
+					return "Edited/MessageIsEmpty disagree with the item"
+				}
+			case *bug.AddCommentTimelineItem:
+				if v.Edited() != (len(v.History) > 1) || v.MessageIsEmpty() != (strings.TrimSpace(v.Message) == "") {
+					return "Edited/MessageIsEmpty disagree with the item"
+				}
+			}
+		}
+		if _, err := s.SearchTimelineItem(entity.CombinedId("none")); err == nil {
+			return "SearchTimelineItem finds an unknown id"
+		}
+		for _, c := range s.Comments {
+			got, err := s.SearchComment(c.CombinedId())
+			if err != nil || got.CombinedId() != c.CombinedId() {
+				return "SearchComment does not find a comment of the snapshot"
+			}
+			got2, err := s.SearchCommentByOpId(c.TargetId())
+			if err != nil || got2.TargetId() != c.TargetId() {
+				return "SearchCommentByOpId does not find a comment of the snapshot"
+			}
+		}
+		if _, err := s.SearchComment(entity.CombinedId("none")); err == nil {
+			return "SearchComment finds an unknown id"
+		}
+		return ""
+	}
+	snap1 := b.Compile()
+	s1 := render(snap1)
+	s1.Access = accessors(snap1)
 	s2 := render(b.Compile())
 	j1, _ := json.Marshal(s1)
 	j2, _ := json.Marshal(s2)
@@ -521,7 +588,7 @@ func (c10Driver) Run(raw json.RawMessage) Case {
 		own = append(own, "["+strings.Join(ps, "; ")+"]%N")
 	}
 	obs := fmt.Sprintf("mkobs10 %s %d %d %s %s %s %s %s %s %s %s %s %s", opid(s1.ID), s1.Status, txt(s1.Title), coqList(coms), nlist(lbs),
-		ints(s1.Actors), ints(s1.Parts), coqList(tl), coqList(opl), coqList(meta), coqList(metaGet), coqBool(s1.Same), coqBool(s1.Incr))
+		ints(s1.Actors), ints(s1.Parts), coqList(tl), coqList(opl), coqList(meta), coqList(metaGet), coqBool(s1.Same), coqBool(s1.Incr && s1.Access == ""))
 	term := fmt.Sprintf("mkcase10 %s %s (%s)", coqList(mops), coqList(own), obs)
 	var tg []string
 	for t := range tags {
